@@ -78,6 +78,7 @@ type ObserveRec struct {
 	Name  string
 	Guard *Term
 	Term  *Term
+	Str   Val // string observation (vObserveStr); Term is nil
 }
 
 type OutEvent struct {
@@ -131,6 +132,19 @@ type Exec struct {
 	UFUsed    map[string]int
 
 	Known map[string]bool // open known findings
+
+	// two-run non-interference (see tworun.go)
+	TwoRun       string // obligation id prefix; "" = off
+	TwoRunOnly   bool   // keep only the two-run obligations of the instance
+	SymPrefix    string // prefix of input names (the "other run" gets its own inputs)
+	SharedMax    int    // objects 1..SharedMax exist after package initialisation
+	SharedWrites []SharedWrite
+	fnStack      []*ssa.Function
+	phase        int
+	syncMaps     map[string]int
+	quietStore   bool
+	atomicStore  bool
+	extraShared  map[int]bool
 
 	Unwind  int
 	Lenient bool // during package init: unsupported calls yield Poison
@@ -372,6 +386,7 @@ func (e *Exec) store(st *State, p *Ptr, v Val, where string) {
 	if !ok {
 		panic(fmt.Sprintf("object %d not in state at %s", p.Obj, where))
 	}
+	e.noteSharedWrite(st, p.Obj, where)
 	st.Mem[p.Obj] = e.storePath(st, root, p.Path, v, where)
 }
 
@@ -615,7 +630,8 @@ func (e *Exec) CallFunction(st *State, fn *ssa.Function, args []Val, free []Val,
 		panic(&UnsupportedErr{Msg: "call depth exceeded at " + fn.String()})
 	}
 	e.depth++
-	defer func() { e.depth-- }()
+	e.fnStack = append(e.fnStack, fn)
+	defer func() { e.depth--; e.fnStack = e.fnStack[:len(e.fnStack)-1] }()
 	fi := e.info(fn)
 	e.FuncsSeen[fn.String()] = fi.Hash
 	callerRegs := st.Regs
